@@ -886,7 +886,7 @@ pub fn run_history(ops: &[QOp]) -> Option<(usize, Fail)> {
 
 // --- workloads -------------------------------------------------------------------------------
 
-const UK: [&str; 13] = ["a", "A", "b", "B", "c", "", "!", "a b", "é", "\u{212A}", "a\u{17F}", "a²", "١"];
+const UK: [&str; 15] = ["a", "A", "k", "K", "c", "", "!", "a b", "é", "\u{212A}", "a\u{17F}", "a²", "١", "\u{131}", "\u{212A}\u{212A}"];
 const UV: [&str; 3] = ["", "x", "Y"];
 
 fn universe_ops() -> Vec<QOp> {
@@ -978,6 +978,20 @@ fn universe_ops() -> Vec<QOp> {
 }
 
 fn rand_key(r: &mut Rng, pool: &[String]) -> String {
+    if r.chance(1, 20) {
+        // an invalid look-alike of a pool key: one letter replaced by a non-ASCII character
+        // whose lower- or upper-case form is that letter
+        let k = r.pick(pool).clone();
+        return k
+            .chars()
+            .map(|c| match c {
+                'k' | 'K' if r.coin() => '\u{212A}',
+                's' | 'S' if r.coin() => '\u{17F}',
+                'i' | 'I' if r.coin() => *r.pick(&['\u{131}', '\u{130}']),
+                _ => c,
+            })
+            .collect();
+    }
     match r.below(10) {
         0..=5 => {
             let k = r.pick(pool).clone();
@@ -1137,7 +1151,9 @@ pub fn run(ctx: &mut Ctx) {
     let mut idx = 0u64;
     for code in 0..64u32 {
         let mut content: Vec<(&str, &str)> = Vec::new();
-        for (i, k) in ["a", "b", "c"].iter().enumerate() {
+        // (the middle key is "k": the Kelvin sign lower-cases to it, so an invalid probe that is
+        // not refused before the comparison would alias a stored key)
+        for (i, k) in ["a", "k", "c"].iter().enumerate() {
             let d = (code >> (2 * i)) & 3;
             if d > 0 {
                 content.push((k, UV[(d - 1) as usize]));
@@ -1182,7 +1198,7 @@ pub fn run(ctx: &mut Ctx) {
         }
     }
     if ctx.worker == 0 {
-        ctx.st.exhaustive.push(json!({"name": format!("every content over keys {{a,b,c}} x values {{absent, \"\", x, Y}} (64) x every operation form with every argument from the universe ({} operations)", ops.len()), "size": 64 * ops.len(), "completed": true}));
+        ctx.st.exhaustive.push(json!({"name": format!("every content over keys {{a,k,c}} x values {{absent, \"\", x, Y}} (64) x every operation form with every argument from the universe ({} operations)", ops.len()), "size": 64 * ops.len(), "completed": true}));
     }
     // G5(b): long random histories over a small key pool (keys below and above the 23-byte inline limit)
     let mut r = ctx.rng("c11.random");
